@@ -40,9 +40,9 @@ enum { VS_SIG_DFL = 0, VS_SIG_IGN = 1, VS_SIG_HANDLER = 2 };
 /* descriptor table: one small global array per attribute (a single nested struct makes CBMC's field
  * sensitivity expand ~1000 scalars on every access: measured 10x slower symbolic execution) */
 #define VFD_BOOLS(X) X(open) X(embryo) X(nonblock) X(cloexec) X(listening) X(connected) X(connecting) X(bound) X(shut_rd) \
-                     X(shut_wr) X(keepalive) X(peer_gone) X(peer_eof) X(reuse) X(conn_immediate)
+                     X(shut_wr) X(keepalive) X(peer_gone) X(peer_eof) X(reuse) X(conn_immediate) X(linger_on) X(reset)
 #define VFD_INTS(X)  X(type) X(family) X(protocol) X(backlog) X(so_error) X(peer) X(closes) X(sndbuf) X(rcvbuf) X(npend) \
-                     X(locallen) X(remotelen) X(rx_len) X(dq_n)
+                     X(locallen) X(remotelen) X(rx_len) X(dq_n) X(linger_secs)
 #define VFD_DECL_B(f) extern _Bool vfd_##f[VS_NFD];
 #define VFD_DECL_I(f) extern int vfd_##f[VS_NFD];
 VFD_BOOLS(VFD_DECL_B)
